@@ -167,7 +167,7 @@ static size_t m_canon(uint8_t *buf, size_t cap)
 
 /* =========================================================== tweakable SKINNY schedules */
 
-enum { T_TKEY, T_TWEAK, T_BADTWEAK };
+enum { T_TKEY, T_TWEAK, T_BADTWEAK, T_ENC };
 typedef struct { int type, a, b; } TOp;
 static TOp t_ops[5000]; static int t_nops;
 static uint8_t (*T_TW)[16]; static int *T_TWLEN, *T_TWNULL; static int t_ntw;
@@ -183,6 +183,8 @@ static struct {
     int keyed, ki, klen;
     uint8_t tweak[16];
     int lastop;          /* last tweak operation (not part of the canonical key: determined by the tweak) */
+    int nenc, blocks, ksoff;   /* CTR kinds: data calls so far, keystream blocks opened, offset in the current block */
+    int ntw, nafter;           /* tweak operations so far / since the first data call (bounds the data-call patterns) */
 } TW;
 
 static void t_addtw(const uint8_t *t, int len, int isnull)
@@ -211,12 +213,19 @@ static void t_build(void)
     for (i = 0; i < t_ntw; ++i) { t_ops[t_nops].type = T_TWEAK; t_ops[t_nops].a = i; ++t_nops; }
     t_ops[t_nops].type = T_BADTWEAK; t_ops[t_nops].a = 0; ++t_nops;
     t_ops[t_nops].type = T_BADTWEAK; t_ops[t_nops].a = B + 1; ++t_nops;
+    if (t_ctr) {
+        /* data calls through the CTR object, so that a tweak change meets buffered keystream: after the change the
+         * stream must continue with the next counter block under the key and the latest tweak only */
+        static const int ENC[] = {1, 0, 2, 5};   /* 1, B+1, 2B+8, 5B+5 */
+        for (i = 0; i < 4; ++i) { t_ops[t_nops].type = T_ENC; t_ops[t_nops].a = ENC[i] == 1 ? 1 : (ENC[i] == 0 ? B + 1 : ENC[i] * B + (ENC[i] == 2 ? 8 : 5)); ++t_nops; }
+    }
 }
 
 static void t_reset(void)
 {
     arena_reset();
     memset(&TW, 0, sizeof(TW));
+    TW.ksoff = t_bs;
     if (t_ctr && !ctr_init(t_c, t_be, &TW.co)) engine_error("ctr init failed");
 }
 
@@ -241,8 +250,13 @@ static int t_validate_layout(void)
 
 static int t_enabled(int op)
 {
-    if (t_ops[op].type == T_TKEY) return !TW.keyed || !tier_thorough();   /* thorough: one key per history keeps the BYTE closure tractable */
+    if (t_ops[op].type == T_TKEY) return TW.nenc == 0 && (!TW.keyed || !tier_thorough());   /* thorough: one key per history keeps the BYTE closure tractable */
     if (!TW.keyed) return 0;
+    /* data-call pattern (CTR kinds): [<= 1 tweak] data [exactly 1 tweak] data - enough for a tweak change to meet
+     * buffered keystream of every batch position without multiplying the closure */
+    if (t_ops[op].type == T_ENC) return TW.lastop < t_nbase && ((TW.nenc == 0 && TW.ntw <= 1) || (TW.nenc == 1 && TW.nafter == 1));
+    if (TW.nenc == 2 || (TW.nenc == 1 && TW.nafter >= 1)) return 0;
+    if (TW.nenc == 1 && t_ops[op].type == T_TWEAK && t_ops[op].a >= t_nbase) return 0;
     /* thorough BYTE tweaks: from a BYTE-tweak state every base operation is taken, but of the 4080 other
      * BYTE tweaks only those at the same position (every value) and the 0xFF ones at every position -
      * the update is xor-out / xor-in per byte, so BYTE x BYTE at unrelated positions adds nothing */
@@ -259,6 +273,7 @@ static void t_opname(int op, char *buf, size_t n)
     switch (o->type) {
     case T_TKEY: snprintf(buf, n, "set_tweaked_key(K%d,%d)", o->a, o->b); break;
     case T_TWEAK: snprintf(buf, n, "set_tweak(%s,%d)", T_TWNULL[o->a] ? "NULL" : hexs(T_TW[o->a], (size_t)T_TWLEN[o->a]), T_TWLEN[o->a]); break;
+    case T_ENC: snprintf(buf, n, "ctr_encrypt(%d)", o->a); break;
     default: snprintf(buf, n, "INVALID set_tweak(size %d)", o->a); break;
     }
 }
@@ -299,7 +314,7 @@ static void t_report(const char *cls, int op, const char *fmt, ...)
     const TOp *o = &t_ops[op];
     va_start(ap, fmt); vsnprintf(detail, sizeof(detail), fmt, ap); va_end(ap);
     snprintf(sig, sizeof(sig), "C04/%s%s/%s/%s", cipher_name(t_c), t_ctr ? "-ctr" : "", cls,
-             o->type == T_TKEY ? "set_tweaked_key" : (o->type == T_TWEAK ? (T_TWNULL[o->a] ? "set_tweak(NULL)" : (T_TWLEN[o->a] < t_bs ? "set_tweak(short)" : "set_tweak")) : "invalid-set_tweak"));
+             o->type == T_ENC ? "ctr_encrypt" : o->type == T_TKEY ? "set_tweaked_key" : (o->type == T_TWEAK ? (T_TWNULL[o->a] ? "set_tweak(NULL)" : (T_TWLEN[o->a] < t_bs ? "set_tweak(short)" : "set_tweak")) : "invalid-set_tweak"));
     violation(sig, mc_casedesc(), "%s | history: %s", detail, mc_history_text());
 }
 
@@ -344,7 +359,27 @@ static void t_apply(int op, int check)
         else if (t_c == CK_S128) LIB(r = skinny128_set_tweaked_key(&TW.k128, KEYS[o->a], (unsigned)o->b));
         else LIB(r = skinny64_set_tweaked_key(&TW.k64, KEYS[o->a], (unsigned)o->b));
         TW.keyed = 1; TW.ki = o->a; TW.klen = o->b; memset(TW.tweak, 0, 16); TW.lastop = 0;
+        TW.ksoff = t_bs;
         break;
+    case T_ENC: {
+        static uint8_t in[160], out[160], ks[16]; int i;
+        lcg_fill(in, (size_t)o->a, 600 + (uint32_t)TW.nenc);
+        r = ctr_encrypt(t_c, &TW.co, out, in, (size_t)o->a);
+        for (i = 0; i < o->a; ++i) {
+            if (TW.ksoff >= t_bs) {
+                if (check) { uint8_t cb[16]; memset(cb, 0, 16); ref_ctr_add(cb, t_bs, (uint64_t)TW.blocks); t_ref(0, cb, ks); }
+                ++TW.blocks; TW.ksoff = 0;
+            } else if (check && i == 0) { uint8_t cb[16]; memset(cb, 0, 16); ref_ctr_add(cb, t_bs, (uint64_t)TW.blocks - 1); t_ref(0, cb, ks); }
+            if (check && out[i] != (uint8_t)(in[i] ^ ks[TW.ksoff])) {
+                t_report("ctr-stream-after-tweak-history", op, "byte %d of this call: got %02x, expected %02x = input xor E(key, last tweak %s)(counter %d)", i, out[i],
+                         (uint8_t)(in[i] ^ ks[TW.ksoff]), hexs(TW.tweak, (size_t)t_bs), TW.blocks - 1);
+                check = 0;
+            }
+            ++TW.ksoff;
+        }
+        ++TW.nenc;
+        if (r != 1) t_report("return-value", op, "ctr_encrypt returned %d", r);
+        return; }
     case T_TWEAK: {
         const void *tp = T_TWNULL[o->a] ? NULL : T_TW[o->a];
         static const uint8_t z16[16] = {0};
@@ -353,7 +388,7 @@ static void t_apply(int op, int check)
         else if (t_c == CK_S128) LIB(r = skinny128_set_tweak(&TW.k128, tp, (unsigned)T_TWLEN[o->a]));
         else LIB(r = skinny64_set_tweak(&TW.k64, tp, (unsigned)T_TWLEN[o->a]));
         memcpy(TW.tweak, T_TW[o->a], 16);      /* already zero padded; zero for null */
-        TW.lastop = o->a;
+        TW.lastop = o->a; TW.ksoff = t_bs; if (TW.ntw < 2) ++TW.ntw; if (TW.nenc) ++TW.nafter;
         break; }
     default:
         if (t_ctr) r = ctr_set_tweak(t_c, &TW.co, T_TW[2], (unsigned)o->a);
@@ -407,6 +442,7 @@ static size_t t_canon(uint8_t *buf, size_t cap)
     else if (t_c == CK_S128) { memcpy(buf, &TW.k128, sizeof(TW.k128)); o = sizeof(TW.k128); }
     else { memcpy(buf, &TW.k64, sizeof(TW.k64)); o = sizeof(TW.k64); }
     memcpy(buf + o, &TW.keyed, sizeof(int) * 3 + 16); o += sizeof(int) * 3 + 16;
+    memcpy(buf + o, &TW.nenc, sizeof(int) * 5); o += sizeof(int) * 5;
     return o;
 }
 
